@@ -847,3 +847,53 @@ retry_glue!(c14_retry_glue_full, 3, false);
 retry_glue!(c14_retry_glue_mixed, 4, false);
 retry_glue!(c14_retry_glue_small_lowest, 1, true);
 retry_glue!(c14_retry_glue_mixed_lowest, 4, true);
+
+
+// ---- C20: the open path reads only inside the current length --------------------------------------
+
+// @harness props=C20 tier=thorough timeout=3600 mem=24 stubbing=1 flavor=nodebug replay=scenario:short_open attempt=1
+// @desc (attempted in the quick tier: not closed in 1500 s on a loaded machine; the part below the header size is c20_open_file_shorter_than_header) TransactionalMemory::new (the real open path: length, magic number, header read, header parsing, recovery decision) on an EXISTING file of ANY length below one page whose first 320 bytes are ARBITRARY: every read it issues lies inside the current length of the storage, nothing is written when the open fails or is read-only, nothing panics; a file that is too short to hold a header is rejected without being read past its end
+// @functions TransactionalMemory::new, PagedCachedFile::{raw_file_len,read_direct}, CheckedBackend::{len,read,check_failure}, UnrepairedDatabaseHeader::{from_bytes,recovery_required,finalize}, Drop for CheckedBackend
+// @bound file length 1..=511 (page size 512), header bytes arbitrary (so the magic number matches or not), read_only arbitrary, allow_initialize false; longer files (the successful open) are outside this harness - c12_header_total_* covers their header parsing
+// @stubs PagedCachedFile::new -> struct literal over the harness backend (stripe allocation skipped); backend = harness backend serving the arbitrary image and returning UnexpectedEof for reads beyond the length; xxh3_checksum -> uninterpreted; alloc::fmt::format -> empty
+#[kani::proof]
+#[kani::unwind(22)]
+#[kani::stub(PagedCachedFile::new, cf::stub_paged_cached_file_new)]
+#[kani::stub(crate::tree_store::page_store::page_manager::xxh3_checksum, hh::uf_checksum)]
+#[kani::stub(alloc::fmt::format, hh::no_format)]
+fn c20_open_short_file_reads_in_bounds() {
+    open_short_case(511);
+}
+
+fn open_short_case(max_len: u64) {
+    let len: u64 = kani::any();
+    kani::assume(len >= 1 && len <= max_len);
+    unsafe {
+        cf::B_LEN = len;
+        cf::B_IMG = kani::any();
+        cf::B_SERVE_IMG = true;
+    }
+    let read_only: bool = kani::any();
+    let r = TransactionalMemory::new(alloc::boxed::Box::new(cf::HBackend), false, 512, None, 0, read_only);
+    assert!(unsafe { cf::B_OOB } == 0, "every read lies inside the current length of the storage");
+    if r.is_err() || read_only {
+        assert!(unsafe { cf::B_WRITES } == 0, "a failed or read-only open never writes, resizes or syncs");
+    }
+    kani::cover!(r.is_err() && len >= 9, "magic-carrying short file rejected");
+    kani::cover!(len < 9, "shorter than the magic number");
+    core::mem::forget(r);
+}
+
+// @harness props=C20 tier=quick timeout=1500 mem=16 rss=5 stubbing=1 flavor=nodebug replay=scenario:short_open
+// @desc TransactionalMemory::new (the real open path) on an EXISTING file that is SHORTER THAN THE 320-BYTE HEADER, with arbitrary contents (so the magic number matches or not): every read it issues lies inside the current length of the storage - in particular a file that carries the magic number is rejected without its header being read past the end of the storage - nothing is written, resized or synced, and nothing panics
+// @functions TransactionalMemory::new, PagedCachedFile::{raw_file_len,read_direct}, CheckedBackend::{len,read,check_failure}, Drop for CheckedBackend
+// @bound file length 1..=319, all bytes arbitrary, read_only arbitrary, allow_initialize false, page size 512
+// @stubs PagedCachedFile::new -> struct literal over the harness backend (stripe allocation skipped); backend = harness backend serving the arbitrary image and returning UnexpectedEof for reads beyond the length; xxh3_checksum -> uninterpreted; alloc::fmt::format -> empty
+#[kani::proof]
+#[kani::unwind(22)]
+#[kani::stub(PagedCachedFile::new, cf::stub_paged_cached_file_new)]
+#[kani::stub(crate::tree_store::page_store::page_manager::xxh3_checksum, hh::uf_checksum)]
+#[kani::stub(alloc::fmt::format, hh::no_format)]
+fn c20_open_file_shorter_than_header() {
+    open_short_case(319);
+}
